@@ -41,7 +41,7 @@ QRoutines == {r \in LapackRoutines : HasLwork(r)}
 
 \* thresholds of the routines' own code that are not multiples of the block size: Dlaqr04 / Dhseqr (ntiny = 15,
 \* nl = 49, nmin = 75, documented minimum changes at n = 11), and through Dhseqr Dgeev
-QExtra(r) == IF r \in Schur \cup {"Dgeev"} THEN {11, 12, 15, 16, 49, 50, 75, 76} ELSE {}
+QExtra(r) == IF r \in Schur \cup {"Dgeev", "Dlaqr23"} THEN {11, 12, 15, 16, 49, 50, 75, 76} ELSE {}
 
 (******************************* the shape grid *******************************)
 Order(r, p) == IF r = "Dormhr" THEN Nq(r, p) ELSE Dim(r, p, "n")
@@ -54,6 +54,12 @@ Cand(r, p, j) ==
                [] nm = "nrhs" -> QK
                [] nm \in {"ilo", "iloz"} -> IF nm = "ilo" THEN {0, 1} ELSE {0}
                [] nm = "ihi" -> {Order(r, p) - 1, Order(r, p) - 2}
+               \* Dlaqr23: the block 0 .. n-1 or 1 .. n-2, windows on both sides of the thresholds, T and WV both minimal or both n wide / high
+               [] nm = "ktop" -> {0, 1}
+               [] nm = "kbot" -> {Dim(r, p, "n") - 1 - Dim(r, p, "ktop")}
+               [] nm = "nw" -> {1, 2, 3, 16, 33, 76, rg[2]}
+               [] nm = "nh" -> {Dim(r, p, "nw"), Dim(r, p, "n")}
+               [] nm = "nv" -> {Dim(r, p, "nh")}
                [] nm = "ihiz" -> {Dim(r, p, "n") - 1}
                [] nm = "mm" -> {Dim(r, p, "n")}
     IN {v \in S : v >= rg[1] /\ v <= rg[2]}
@@ -108,14 +114,15 @@ QValid(r, p) ==
 \*   "ident"  the identity (orthogonal input / output matrices)
 MatFill(r, o) ==
     CASE o = "a" /\ r \in {"Dorgqr", "Dorglq", "Dorgql", "Dormqr", "Dormlq", "Dorgtr", "Dorghr", "Dorgbr", "Dormbr", "Dormhr"} -> "refl"
-      [] o = "h" /\ r \in Schur -> "hess"
+      [] o = "h" /\ r \in Schur \cup {"Dlaqr23"} -> "hess"
       [] o = "t" /\ r = "Dtrevc3" -> "upper"
       [] o \in {"u", "v", "q", "vt", "vl", "vr", "z"} -> "ident"
       [] OTHER -> "dom"
 \* integer vectors: "ident" a pivot sequence without interchanges, "free" Dgeqp3's marker of a free column (-1), "zero"
 IVecFill(o) == IF o = "ipiv" THEN "ident" ELSE IF o = "jpvt" THEN "free" ELSE "zero"
 \* the active block of a Hessenberg operand (<<0, -1>>: none)
-Block(r, p) == IF r \in Schur THEN <<Dim(r, p, "ilo"), Dim(r, p, "ihi")>> ELSE <<0, 0 - 1>>
+Block(r, p) == IF r \in Schur THEN <<Dim(r, p, "ilo"), Dim(r, p, "ihi")>>
+               ELSE IF r = "Dlaqr23" THEN <<Dim(r, p, "ktop"), Dim(r, p, "kbot")>> ELSE <<0, 0 - 1>>
 
 QCase(c) ==
     LET r == c.r  p == c.p
